@@ -65,6 +65,33 @@ def static_array_len(f, operand):
     return None
 
 
+def _slice_iter_len(f, it_local, depth=0):
+    """static length of the slice a `slice::Iter` local iterates, when the slice is an unsize cast of a fixed array"""
+    l = it_local
+    for _ in range(10):
+        ds = f.defs().get(l, [])
+        if len(ds) != 1: return None
+        s_ = ds[0][2]
+        if s_["k"] == "call":
+            nm = s_.get("resolved") or s_.get("callee") or ""
+            if nm.rsplit("::", 1)[-1] in ("iter", "into_iter") and s_["args"] and s_["args"][0]["k"] in ("copy", "move"):
+                a = s_["args"][0]
+                n = static_array_len(f, a)
+                if n is not None: return n
+                if a["place"]["proj"]: return None
+                l = a["place"]["local"]; continue
+            return None
+        rv = s_["rv"]
+        if rv["k"] in ("ref", "rawptr") and not [p_ for p_ in rv["place"]["proj"] if p_["k"] != "deref"]: l = rv["place"]["local"]; continue
+        if rv["k"] in ("use", "cast") and rv["op"]["k"] in ("copy", "move"):
+            n = static_array_len(f, rv["op"])
+            if n is not None: return n
+            if rv["op"]["place"]["proj"]: return None
+            l = rv["op"]["place"]["local"]; continue
+        return None
+    return None
+
+
 def good_blocks(f):
     """blocks that can reach a return without passing through an error-producing block"""
     err = set()
@@ -111,6 +138,9 @@ def region(f, start, stop, table, good, loops_seen=None, depth=0):
                     ty = f.locals[tt["args"][0]["place"]["local"]]["ty"]
                     m = re.search(r"array::IntoIter<u8, (\d+)>", json.dumps(ty))
                     if m: trip = int(m.group(1))
+                    elif "slice::Iter" in json.dumps(ty):
+                        # `for b in octets.iter()` over a slice that is visibly an unsized fixed array (`&ip.octets()` passed as `&[u8]`, also through an inlined helper)
+                        trip = _slice_iter_len(f, tt["args"][0]["place"]["local"])
             if inner and trip is not None and len(inner) == 1 and inner[0][0] == "raw" and inner[0][1] == 1: out.append(("raw", trip, inner[0][2], inner[0][3]))
             elif inner and trip is not None: out += inner * trip
             elif inner: out.append(("loop", inner))
